@@ -137,6 +137,10 @@ func (p *bvPrinter) emit(t *Term) {
 		}
 	case OEq:
 		body = fmt.Sprintf("(= %s)", j)
+	case OAddC:
+		body = fmt.Sprintf("(bvadd (bvadd ((_ zero_extend 1) %s) ((_ zero_extend 1) %s)) ((_ zero_extend 1) %s))", args[0], args[1], args[2])
+	case OSubB:
+		body = fmt.Sprintf("(bvsub (bvsub ((_ zero_extend 1) %s) ((_ zero_extend 1) %s)) ((_ zero_extend 1) %s))", args[0], args[1], args[2])
 	default:
 		n, ok := opNames[t.Op]
 		if !ok {
@@ -204,6 +208,9 @@ type liaTr struct {
 	nvars   int
 	prodVar map[int]string
 	ufDecl  map[string]bool
+	pre     map[int][]liaField // natural field split of AddC/SubB results
+	nonlin  bool
+	hasReal bool
 }
 
 type liaField struct {
@@ -220,7 +227,7 @@ func (l *liaTr) fresh(prefix string, hi *big.Int) string {
 	return n
 }
 
-func (l *liaTr) ub(t *Term) *big.Int { return l.b.Maybe(t) }
+func (l *liaTr) ub(t *Term) *big.Int { return l.b.UB(t) }
 
 // collect cut points
 func (l *liaTr) scan(t *Term, seen map[int]bool) {
@@ -278,6 +285,19 @@ func (l *liaTr) partition(x *Term) []liaField {
 		return f
 	}
 	ix := l.I(x)
+	if pf, ok := l.pre[x.ID]; ok {
+		// cuts must coincide with the natural split
+		okCuts := true
+		for p := range l.cuts[x.ID] {
+			if p > 0 && p < pf[len(pf)-1].hi && p != pf[0].hi {
+				okCuts = false
+			}
+		}
+		if okCuts {
+			l.fields[x.ID] = pf
+			return pf
+		}
+	}
 	eff := l.ub(x).BitLen()
 	ps := []int{0}
 	for p := range l.cuts[x.ID] {
@@ -443,6 +463,9 @@ func (l *liaTr) i(t *Term) string {
 		}
 		n := smtName(t.Name)
 		l.nvars++
+		if t.S == SReal {
+			l.hasReal = true
+		}
 		if t.S > 0 {
 			fmt.Fprintf(&l.sb, "(declare-const %s Int)\n(assert (and (<= 0 %s) (<= %s %s)))\n", n, n, n, maskW(w).String())
 		} else {
@@ -482,12 +505,19 @@ func (l *liaTr) i(t *Term) string {
 		switch t.Op {
 		case OAdd, OSub, OMul:
 			op := map[Op]string{OAdd: "+", OSub: "-", OMul: "*"}[t.Op]
+			if t.Op == OMul && !t.Args[0].IsConst() && !t.Args[1].IsConst() {
+				l.nonlin = true
+			}
+			if t.S == SReal {
+				l.hasReal = true
+			}
 			return fmt.Sprintf("(%s %s %s)", op, l.I(t.Args[0]), l.I(t.Args[1]))
 		case OIMod:
 			return fmt.Sprintf("(mod %s %s)", l.I(t.Args[0]), l.I(t.Args[1]))
 		case OIDiv:
 			return fmt.Sprintf("(div %s %s)", l.I(t.Args[0]), l.I(t.Args[1]))
 		case ORDiv:
+			l.nonlin, l.hasReal = true, true
 			return fmt.Sprintf("(/ %s %s)", l.I(t.Args[0]), l.I(t.Args[1]))
 		case OBv2Int:
 			return l.I(t.Args[0])
@@ -508,6 +538,30 @@ func (l *liaTr) i(t *Term) string {
 		return fmt.Sprintf("(+ (* %s %s) %s)", pow2(int(t.Args[1].S)).String(), l.I(t.Args[0]), l.I(t.Args[1]))
 	case OExtract:
 		return l.bitsOf(t.Args[0], t.P1, t.P0+1)
+	case OAddC, OSubB:
+		x, y, c := t.Args[0], t.Args[1], t.Args[2]
+		xw := int(x.S)
+		if t.Op == OAddC {
+			tot := new(big.Int).Add(l.ub(x), l.ub(y))
+			tot.Add(tot, l.ub(c))
+			e := fmt.Sprintf("(+ %s %s %s)", l.I(x), l.I(y), l.I(c))
+			if tot.Cmp(maskW(xw)) <= 0 {
+				return e
+			}
+			lo := l.fresh("lo", maskW(xw))
+			cy := l.fresh("cy", new(big.Int).Rsh(tot, uint(xw)))
+			fmt.Fprintf(&l.sb, "(assert (= %s (+ %s (* %s %s))))\n", e, lo, pow2(xw).String(), cy)
+			l.pre[t.ID] = []liaField{{0, xw, lo}, {xw, xw + 1, cy}}
+			return fmt.Sprintf("(+ %s (* %s %s))", lo, pow2(xw).String(), cy)
+		}
+		if l.ub(c).Cmp(bigOne) > 0 {
+			l.fail("SubB with borrow-in > 1")
+		}
+		d := l.fresh("d", maskW(xw))
+		bo := l.fresh("bo", bigOne)
+		fmt.Fprintf(&l.sb, "(assert (= (- %s %s %s) (- %s (* %s %s))))\n", l.I(x), l.I(y), l.I(c), d, pow2(xw).String(), bo)
+		l.pre[t.ID] = []liaField{{0, xw, d}, {xw, xw + 1, bo}}
+		return fmt.Sprintf("(+ %s (* %s %s))", d, pow2(xw).String(), bo)
 	case OAdd:
 		e := fmt.Sprintf("(+ %s %s)", l.I(t.Args[0]), l.I(t.Args[1]))
 		return l.wrapped(t, e, new(big.Int).Add(l.ub(t.Args[0]), l.ub(t.Args[1])), false, nil)
@@ -527,14 +581,10 @@ func (l *liaTr) i(t *Term) string {
 			e = fmt.Sprintf("(* %s %s)", y.K.String(), l.I(x))
 		} else {
 			// symbolic product: one bounded variable per product node
-			ix, iy := l.I(x), l.I(y)
-			_ = ix
-			_ = iy
+			l.I(x)
+			l.I(y)
 			pv := l.fresh("M", ubp)
 			l.prodVar[t.ID] = pv
-			// elementary facts
-			fmt.Fprintf(&l.sb, "(assert (=> (= %s 0) (= %s 0)))\n(assert (=> (= %s 0) (= %s 0)))\n", ix, pv, iy, pv)
-			fmt.Fprintf(&l.sb, "(assert (=> (= %s 1) (= %s %s)))\n(assert (=> (= %s 1) (= %s %s)))\n", ix, pv, iy, iy, pv, ix)
 			e = pv
 		}
 		return l.wrapped(t, e, ubp, false, nil)
@@ -696,7 +746,7 @@ func (l *liaTr) bb(t *Term) string {
 // PrintLIA renders the assertions in integer arithmetic.  Returns error text when
 // a term is not linearisable.
 func PrintLIA(b *Builder, asserts []*Term) (script string, nodes int, err error) {
-	l := &liaTr{b: b, memo: map[int]string{}, cuts: map[int]map[int]bool{}, fields: map[int][]liaField{}, prodVar: map[int]string{}, ufDecl: map[string]bool{}}
+	l := &liaTr{b: b, memo: map[int]string{}, cuts: map[int]map[int]bool{}, fields: map[int][]liaField{}, prodVar: map[int]string{}, ufDecl: map[string]bool{}, pre: map[int][]liaField{}}
 	defer func() {
 		if r := recover(); r != nil {
 			if le, ok := r.(liaErr); ok {
@@ -717,7 +767,11 @@ func PrintLIA(b *Builder, asserts []*Term) (script string, nodes int, err error)
 	for _, a := range as {
 		fmt.Fprintf(&l.sb, "(assert %s)\n", a)
 	}
-	return l.sb.String(), len(seen), nil
+	logic := "(set-logic QF_UFLIA)\n"
+	if l.nonlin || l.hasReal {
+		logic = ""
+	}
+	return logic + l.sb.String(), len(seen), nil
 }
 
 // ---------------------------------------------------------------- solver processes
